@@ -480,12 +480,11 @@ class VersionConverter(object):
         print(msg)
 
     def __str__(self):
-        tree = self.convert()
-        return ET.tounicode(tree, pretty_print=True) if tree else ""
+        # convert already returns the converted document as an XML string.
+        return self.convert()
 
     def __unicode__(self):
-        tree = self.convert()
-        return ET.tounicode(tree, pretty_print=True) if tree else ""
+        return self.convert()
 
     def convert(self, backend="XML"):
         """
